@@ -64,7 +64,7 @@ func (e *Engine) explore(init []*State, stop *stopCond, budget *int, depth int) 
 	work := append([]*State(nil), init...)
 	var res exploreResult
 	for len(work) > 0 {
-		if e.MaxFind > 0 && len(e.Findings) >= e.MaxFind {
+		if e.MaxFind > 0 && len(e.seenFind) >= e.MaxFind && e.sitesFull() {
 			return res
 		}
 		if !e.Deadline.IsZero() && time.Now().After(e.Deadline) {
@@ -425,15 +425,30 @@ func (e *Engine) constVal(c *ssa.Const) Value {
 	return nil
 }
 
+const perSite = 3
+
+// sitesFull: every failing site seen so far already has its perSite counterexamples.
+func (e *Engine) sitesFull() bool {
+	for _, n := range e.seenFind {
+		if n < perSite {
+			return false
+		}
+	}
+	return true
+}
+
 // violate records a finding with a model of pc ∧ extra.
 func (e *Engine) violate(s *State, kind, msg string, extra *Term, in ssa.Instruction) {
 	pos := e.instrPos(s, in)
 	fn := e.innermostRepoFunc(s)
 	keyS := kind + "|" + msg + "|" + pos + "|" + fn
 	if e.seenFind == nil {
-		e.seenFind = map[string]bool{}
+		e.seenFind = map[string]int{}
 	}
-	if e.seenFind[keyS] {
+	// up to perSite counterexamples (from different paths) are kept for one failing site: the first
+	// model may be one that a native replay cannot follow (a collision of an uninterpreted hash),
+	// while a later one reproduces
+	if e.seenFind[keyS] >= perSite {
 		e.Stats["dup-findings"]++
 		return
 	}
@@ -442,7 +457,7 @@ func (e *Engine) violate(s *State, kind, msg string, extra *Term, in ssa.Instruc
 		e.incon(fmt.Sprintf("model extraction failed for %s finding %q at %s", kind, msg, pos))
 		return
 	}
-	e.seenFind[keyS] = true
+	e.seenFind[keyS]++
 	pcx := s.PC
 	if extra != nil {
 		pcx = append(append([]*Term(nil), s.PC...), extra)
